@@ -320,6 +320,7 @@ func runCheck(ps *propSpec, o checkOpts) checkResult {
 		os.MkdirAll(outDir, 0755)
 		results, dead := runWorkers(b, ps, sc, o, outDir, false, kfs)
 		sub := map[string]uint64{}
+		infraN := 0
 		for _, wr := range results {
 			agg.runs += wr.Runs
 			agg.nontrivial += wr.Nontrivial
@@ -389,9 +390,15 @@ func runCheck(ps *propSpec, o checkOpts) checkResult {
 				cands = append(cands, candidate{p, rf})
 				agg.deadWorkers = append(agg.deadWorkers, d)
 			} else {
-				fmt.Println("VERIF-" + d)
+				infraN++
+				if infraN <= 2 {
+					fmt.Println("VERIF-" + d)
+				}
 				infra = true
 			}
+		}
+		if infraN > 2 {
+			fmt.Printf("VERIF-INFRA ... and %d more worker(s) of %s with the same kind of trouble\n", infraN-2, sc.Name)
 		}
 		if ps.PostCheck != nil {
 			cands = append(cands, ps.PostCheck(ps, b, outDir, o, agg)...)
